@@ -366,14 +366,14 @@ def walk_family(p, w, afi, safi, d, addpath, withdraw=False):
         i = 0
         while i < len(d):
             bits = d[i]
-            want = 96 if afi == 1 else 192
-            if bits != want:
-                p.bad(w, 'SR policy NLRI length %d bits, must be %d' % (bits, want))
+            # distinguisher + color + endpoint of 4 or 16 octets (which endpoint family suits which AFI is meaning, not structure)
+            if bits not in (96, 192):
+                p.bad(w, 'SR policy NLRI length %d bits, must be 96 or 192' % bits)
                 return
-            if i + 1 + want // 8 > len(d):
+            if i + 1 + bits // 8 > len(d):
                 p.bad(w, 'SR policy NLRI truncated')
                 return
-            i += 1 + want // 8
+            i += 1 + bits // 8
     elif afi == 16388:
         i = 0
         while i < len(d):
